@@ -24,6 +24,8 @@ import (
 	"runtime/debug"
 	"sort"
 	"strings"
+	"sync"
+	"sync/atomic"
 	"time"
 
 	"verifsim/core"
@@ -400,9 +402,9 @@ func inProcessTester(e *Engine, rf *ReplayFile) tester {
 }
 
 func processTester(rf *ReplayFile, dir string) tester {
-	n := 0
+	var ctr int64
 	return func(vals []uint32) (string, []uint32, *core.Violation, []string, []string) {
-		n++
+		n := atomic.AddInt64(&ctr, 1)
 		c := *rf
 		c.Tape = vals
 		c.Violation = nil
@@ -469,24 +471,63 @@ func cmdShrink(args []string) {
 	best := append([]uint32(nil), rf.Tape...)
 	var bestViol = rf.Violation
 	bestDesc, bestEvents := rf.Description, rf.Events
-	try := func(c []uint32) bool {
-		if time.Now().After(deadline) {
-			return false
-		}
-		tried++
-		sig, used, v, desc, ev := test(append([]uint32(nil), c...))
-		if sig != want {
-			return false
-		}
+	par := 1
+	if *proc || e.Isolated {
+		par = runtime.NumCPU() // candidates are OS processes: probe many at once
+	}
+	type outcome struct {
+		sig          string
+		used         []uint32
+		v            *core.Violation
+		desc, events []string
+	}
+	better := func(used []uint32) bool {
 		if len(used) > len(best) {
 			return false
 		}
-		if len(used) == len(best) && !lexLess(used, best) {
-			return false
-		}
-		best, bestViol, bestDesc, bestEvents = used, v, desc, ev
-		return true
+		return len(used) < len(best) || lexLess(used, best)
 	}
+	// tryMany evaluates the candidates (concurrently when they are processes) and adopts the first
+	// one, in order, that shows the same violation and is smaller; it returns its index or -1.
+	tryMany := func(cands [][]uint32) int {
+		if time.Now().After(deadline) || len(cands) == 0 {
+			return -1
+		}
+		res := make([]outcome, len(cands))
+		var wg sync.WaitGroup
+		sem := make(chan struct{}, par)
+		for i := range cands {
+			wg.Add(1)
+			sem <- struct{}{}
+			go func(i int) {
+				defer wg.Done()
+				defer func() { <-sem }()
+				sig, used, v, desc, ev := test(append([]uint32(nil), cands[i]...))
+				res[i] = outcome{sig, used, v, desc, ev}
+			}(i)
+			if par == 1 {
+				wg.Wait()
+				tried++
+				if res[i].sig == want && better(res[i].used) {
+					best, bestViol, bestDesc, bestEvents = res[i].used, res[i].v, res[i].desc, res[i].events
+					return i
+				}
+			}
+		}
+		wg.Wait()
+		if par == 1 {
+			return -1
+		}
+		tried += len(cands)
+		for i := range res {
+			if res[i].sig == want && better(res[i].used) {
+				best, bestViol, bestDesc, bestEvents = res[i].used, res[i].v, res[i].desc, res[i].events
+				return i
+			}
+		}
+		return -1
+	}
+	try := func(c []uint32) bool { return tryMany([][]uint32{c}) == 0 }
 	// confirm the original reproduces before spending the budget
 	confirmed := false
 	var gotSig string
@@ -506,37 +547,86 @@ func cmdShrink(args []string) {
 		progress = false
 		// pass 1: delete spans
 		for size := len(best) / 2; size >= 1; size /= 2 {
-			for i := 0; i+size <= len(best); {
-				c := append(append([]uint32(nil), best[:i]...), best[i+size:]...)
-				if try(c) {
+			for i := 0; i+size <= len(best) && time.Now().Before(deadline); {
+				var cands [][]uint32
+				var at []int
+				for j := i; j+size <= len(best) && len(cands) < par; j += size {
+					cands = append(cands, append(append([]uint32(nil), best[:j]...), best[j+size:]...))
+					at = append(at, j)
+				}
+				if k := tryMany(cands); k >= 0 {
 					progress = true
+					i = at[k] // the tape shifted left: probe the same position again
 				} else {
-					i += size
+					i = at[len(at)-1] + size
 				}
 			}
 		}
 		// pass 2: zero spans
 		for size := len(best) / 2; size >= 1; size /= 2 {
-			for i := 0; i+size <= len(best); i += size {
-				allZero := true
-				for _, v := range best[i : i+size] {
-					if v != 0 {
-						allZero = false
+			for i := 0; i+size <= len(best) && time.Now().Before(deadline); {
+				var cands [][]uint32
+				var at []int
+				j := i
+				for ; j+size <= len(best) && len(cands) < par; j += size {
+					allZero := true
+					for _, v := range best[j : j+size] {
+						if v != 0 {
+							allZero = false
+						}
 					}
+					if allZero {
+						continue
+					}
+					c := append([]uint32(nil), best...)
+					for x := j; x < j+size; x++ {
+						c[x] = 0
+					}
+					cands = append(cands, c)
+					at = append(at, j)
 				}
-				if allZero {
-					continue
+				if len(cands) == 0 {
+					break
 				}
-				c := append([]uint32(nil), best...)
-				for j := i; j < i+size; j++ {
-					c[j] = 0
-				}
-				if try(c) {
+				if k := tryMany(cands); k >= 0 {
 					progress = true
+					i = at[k] + size
+					if i > len(best) {
+						break
+					}
+				} else {
+					i = j
 				}
 			}
 		}
-		// pass 3: lower single values
+		// pass 3: lower single values (a binary search per entry; with process candidates only the
+		// cheap probes, many entries at once)
+		if par > 1 {
+			for i := 0; i < len(best) && time.Now().Before(deadline); {
+				var cands [][]uint32
+				var at []int
+				j := i
+				for ; j < len(best) && len(cands) < par; j++ {
+					if best[j] == 0 {
+						continue
+					}
+					c := append([]uint32(nil), best...)
+					c[j] = best[j] / 2
+					cands = append(cands, c)
+					at = append(at, j)
+				}
+				if len(cands) == 0 {
+					break
+				}
+				if k := tryMany(cands); k >= 0 {
+					progress = true
+					i = at[k]
+				} else {
+					i = j
+				}
+			}
+			continue
+		}
 		for i := 0; i < len(best); i++ {
 			if best[i] == 0 {
 				continue
